@@ -190,8 +190,10 @@ class trie_builder {
         // fetching edges
         {
             m_edges.clear();
+            XCDAT_THROW_IF(m_keys[beg].size() <= kpos, "The input keys are not unique.");
             auto ch = static_cast<std::uint8_t>(m_keys[beg][kpos]);
             for (auto i = beg + 1; i < end; ++i) {
+                XCDAT_THROW_IF(m_keys[i].size() <= kpos, "The input keys are not in lexicographical order.");
                 const auto next_ch = static_cast<std::uint8_t>(m_keys[i][kpos]);
                 if (ch != next_ch) {
                     XCDAT_THROW_IF(next_ch < ch, "The input keys are not in lexicographical order.");
